@@ -57,3 +57,12 @@ class Cylinder(CenteredScatterer):
                                            "".format(rotation))
         self.rotation = rotation
         super().__init__(center)
+
+        for dimension in (self.d, self.h):
+            try:
+                if dimension is not None and np.any(
+                        np.array(dimension) < 0):
+                    raise InvalidScatterer(self, "dimension is negative")
+            except TypeError:
+                # priors as arguments: not checked (as for Sphere)
+                pass
